@@ -453,6 +453,7 @@ package quickfix
 // reverseRoute: a fresh reply; every copying step is one of the mirrored pairs; nothing but routing fields is set; the
 // inbound message stays well-formed (no modifies clause: callers rely on the postconditions)
 //@ func (m *Message) reverseRoute [C06]
+//@   bind reverseMsg = NewMessage
 //@   requires msgok(m)
 //@   atcall reverseRoute$1 @pair ispair(arg0, arg1)
 //@   atcall reverseRoute$1 @msame m.Header.tagLookup == old(m.Header.tagLookup) && m.Body.tagLookup == old(m.Body.tagLookup) && m.Trailer.tagLookup == old(m.Trailer.tagLookup) && m.Header.rwLock == old(m.Header.rwLock) && m.Body.rwLock == old(m.Body.rwLock) && m.Trailer.rwLock == old(m.Trailer.rwLock)
@@ -498,6 +499,7 @@ package quickfix
 // No modifies clause: callers only rely on the postconditions (the frame proof of this long function costs minutes).
 //@ spec onebyte(d []byte, c int) bool = len(d) == 1 && d[0] == c
 //@ func (s *session) doReject [C06]
+//@   bind reply = reverseRoute
 //@   suffixsplit
 //@   ensures @target (s.store.#T == old(s.store.#T) && s.store.#R == old(s.store.#R)) || s.store.#R > old(s.store.#R)
 //@   ensures @nodelivery s.application.#n == old(s.application.#n)
@@ -543,6 +545,7 @@ package quickfix
 
 // ---- logout / logon messages -----------------------------------------------------------------------------------
 //@ func (s *session) buildLogout [C06,C08]
+//@   bind logout = NewMessage
 //@   stepframes
 //@   atcall SetField @bodyempty forall t Tag :: !fhas(logout.Body.FieldMap, t)
 //@   atcall SetField @bodytags arr(logout.Body.tags) == 0
@@ -703,6 +706,7 @@ package quickfix
 //@ extern (d time.Duration) Seconds()
 //@   pure
 //@ func (s *session) sendLogonInReplyTo [C07,C08]
+//@   bind logon = NewMessage
 //@   requires @sess sessfull(s)
 //@   requires @reply inReplyTo != nil ==> msgok(inReplyTo)
 //@   atcall SetField @maps logon != nil && mapsok(logon)
